@@ -397,11 +397,13 @@ def main_wrapper(fn):
 
 
 def clip32(v):
-    """TLC integers are 32-bit: values outside are rendered as strings so that specs can refuse them explicitly."""
+    """TLC integers are 32-bit: values outside are replaced by a sentinel of the same sign that no model value reaches
+    (an integer, not a string: a judge that compares it with what the specification expects answers 'differs' instead of
+    failing with a type error - an out-of-range value in an observation is a finding, not a tool failure)."""
     if isinstance(v, bool):
         return v
-    if isinstance(v, int) and not (-2147483648 <= v <= 2147483647):
-        return "big:" + str(v)
+    if isinstance(v, int) and not (-1999999999 < v < 1999999999):
+        return 1999999999 if v > 0 else -1999999999
     return v
 
 
